@@ -228,13 +228,68 @@ func ruleO3(c *Ctx) {
 		c.anchorMissing("O3", "TraverseAST: case *ast.Program")
 		return
 	}
-	var loops []*ast.RangeStmt
+	// a loop over the statements: `for _, s := range X` or `for i := 0; i < len(X); i++` with X
+	// n.Statements or a single-assignment local alias of it
+	type stmtLoop struct {
+		node    ast.Node
+		body    *ast.BlockStmt
+		elem    func(e ast.Expr) bool // e is the current element
+		forward bool
+	}
+	aliases := selectorAliases(fd)
+	isStatements := func(e ast.Expr) (string, bool) {
+		e = ast.Unparen(e)
+		if id, ok := e.(*ast.Ident); ok {
+			if al, ok := aliases[id.Name]; ok && al.Sel.Name == "Statements" {
+				return id.Name, true
+			}
+			return "", false
+		}
+		if sel, ok := e.(*ast.SelectorExpr); ok && sel.Sel.Name == "Statements" {
+			return types.ExprString(sel), true
+		}
+		return "", false
+	}
+	var loops []stmtLoop
 	for _, st := range cc.Body {
 		ast.Inspect(st, func(n ast.Node) bool {
-			if rs, ok := n.(*ast.RangeStmt); ok {
-				if sel, ok := ast.Unparen(rs.X).(*ast.SelectorExpr); ok && sel.Sel.Name == "Statements" {
-					loops = append(loops, rs)
+			switch l := n.(type) {
+			case *ast.RangeStmt:
+				if _, ok := isStatements(l.X); ok {
+					vid, _ := l.Value.(*ast.Ident)
+					loops = append(loops, stmtLoop{l, l.Body, func(e ast.Expr) bool {
+						id, ok := ast.Unparen(e).(*ast.Ident)
+						return ok && vid != nil && id.Name == vid.Name
+					}, true})
 				}
+			case *ast.ForStmt:
+				cond, ok := l.Cond.(*ast.BinaryExpr)
+				if !ok {
+					return true
+				}
+				over := ""
+				ast.Inspect(cond, func(m ast.Node) bool {
+					if call, ok := m.(*ast.CallExpr); ok && len(call.Args) == 1 {
+						if fn, ok := call.Fun.(*ast.Ident); ok && fn.Name == "len" {
+							if txt, ok := isStatements(call.Args[0]); ok {
+								over = txt
+							}
+						}
+					}
+					return true
+				})
+				if over == "" {
+					return true
+				}
+				idx, fwd := forwardIndexLoopOver(l, "")
+				loops = append(loops, stmtLoop{l, l.Body, func(e ast.Expr) bool {
+					ix, ok := ast.Unparen(e).(*ast.IndexExpr)
+					if !ok || !fwd {
+						return false
+					}
+					id, ok := ix.Index.(*ast.Ident)
+					return ok && id.Name == idx && types.ExprString(ast.Unparen(ix.X)) == over
+				}, fwd})
 			}
 			return true
 		})
@@ -243,7 +298,7 @@ func ruleO3(c *Ctx) {
 	if len(loops) >= 1 {
 		l := loops[0]
 		uncond := false
-		for _, st := range l.Body.List {
+		for _, st := range l.body.List {
 			var call *ast.CallExpr
 			switch s := st.(type) {
 			case *ast.AssignStmt:
@@ -255,23 +310,28 @@ func ruleO3(c *Ctx) {
 			}
 			if call != nil {
 				if fn, ok := calleeOf(p.TypesInfo, call).(*types.Func); ok && fn.Name() == "TraverseAST" && len(call.Args) >= 1 {
-					if id, ok := call.Args[0].(*ast.Ident); ok {
-						if vid, ok := l.Value.(*ast.Ident); ok && id.Name == vid.Name {
-							uncond = true
-						}
+					if l.elem(call.Args[0]) {
+						uncond = true
 					}
 				}
 			}
+			if uncond {
+				break
+			}
+			// a `continue` in front of the call filters the statements
+			if containsBranch(st, token.CONTINUE) {
+				break
+			}
 		}
-		c.check(uncond, "O3", "TraverseAST[Program]|every statement traversed", c.L.Pos(l.Pos()), "each element of Program.Statements must be handed to TraverseAST at the top level of the loop body (no filtering, no reordering)")
+		c.check(uncond && l.forward, "O3", "TraverseAST[Program]|every statement traversed", c.L.Pos(l.node.Pos()), "each element of Program.Statements must be handed to TraverseAST at the top level of the loop body, in source order (no filtering, no reordering)")
 		jumps := 0
-		ast.Inspect(l.Body, func(n ast.Node) bool {
+		ast.Inspect(l.body, func(n ast.Node) bool {
 			if b, ok := n.(*ast.BranchStmt); ok && (b.Tok == token.BREAK || b.Tok == token.GOTO) {
 				jumps++
 			}
 			return true
 		})
-		c.check(jumps == 0, "O3", "TraverseAST[Program]|no early exit", c.L.Pos(l.Pos()), "the statement loop must not stop early")
+		c.check(jumps == 0, "O3", "TraverseAST[Program]|no early exit", c.L.Pos(l.node.Pos()), "the statement loop must not stop early")
 	}
 	c.floor("O3", 3)
 }
@@ -526,4 +586,15 @@ func inPlaceSliceFunc(name string) bool {
 		}
 	}
 	return false
+}
+
+func containsBranch(st ast.Stmt, tok token.Token) bool {
+	found := false
+	ast.Inspect(st, func(n ast.Node) bool {
+		if b, ok := n.(*ast.BranchStmt); ok && b.Tok == tok {
+			found = true
+		}
+		return true
+	})
+	return found
 }
